@@ -194,4 +194,31 @@ def timeoutIdx : Ev α → Option Nat
   | .timeout i => some i
   | _ => none
 
+/-! ### An `End` with two downstream replicas (finding F12)
+
+  `End::next` (end.rs:210-217) enqueues an item into the batcher of ONE downstream replica
+  (`senders[block.indexes[index % len]]`); the other batchers are not touched, in particular their
+  `last_send.elapsed() > max_delay` test (batcher.rs:77) is not evaluated. -/
+
+structure End2 (α : Type) where
+  bufA : List α
+  bufB : List α
+  sentA : List (List α)
+  sentB : List (List α)
+  deriving Repr, DecidableEq
+
+/-- one data element routed to replica A (`toA`) or B; `el` = the timer test of THAT batcher -/
+def End2.enqueue (m : Batcher.Mode) (e : End2 α) (toA : Bool) (x : α) (el : Bool) : End2 α :=
+  if toA then
+    let r := Batcher.enqueue m e.bufA x el
+    { e with bufA := r.1, sentA := e.sentA ++ r.2 }
+  else
+    let r := Batcher.enqueue m e.bufB x el
+    { e with bufB := r.1, sentB := e.sentB ++ r.2 }
+
+/-- a sequence of elements all routed to B, with arbitrary timer outcomes -/
+def End2.feedB (m : Batcher.Mode) (e : End2 α) : List (α × Bool) → End2 α
+  | [] => e
+  | (y, el) :: ys => (e.enqueue m false y el).feedB m ys
+
 end Noir.Latency
